@@ -73,6 +73,10 @@ func (d *Document) GetVariableBooleanValue(name string) (value, valid bool) {
 		definitionName := d.VariableDefinitionNameString(i)
 		if definitionName == name {
 			if d.VariableDefinitions[i].DefaultValue.IsDefined {
+				if d.VariableDefinitions[i].DefaultValue.Value.Kind != ValueKindBoolean {
+					// e.g. $v: Boolean! = 1; left for validation to report
+					return false, false
+				}
 				return bool(d.BooleanValue(d.VariableDefinitions[i].DefaultValue.Value.Ref)), true
 			}
 		}
